@@ -545,3 +545,65 @@ func UnicodeTable(name string) *unicode.RangeTable {
 	}
 	return nil
 }
+
+// InlineClash emulates the rule inlining of -optimize-grammar (a rule that references no rule is
+// copied into every place that references it, repeatedly, so rules that only reference such rules
+// follow) and reports whether some code block then has the same label twice in its scope.
+func InlineClash(g *Grammar) bool {
+	c := g.Clone()
+	for pass := 0; pass < len(c.Rules)+1; pass++ {
+		leaf := map[string]*Rule{}
+		for i, r := range c.Rules {
+			if i == 0 {
+				continue // the entry rule is never inlined
+			}
+			isLeaf := true
+			Walk(r.Expr, func(e *Expr) {
+				if e.Kind == RuleRef {
+					isLeaf = false
+				}
+			})
+			if isLeaf {
+				leaf[r.Name] = r
+			}
+		}
+		changed := false
+		var repl func(e *Expr) *Expr
+		repl = func(e *Expr) *Expr {
+			if e.Kind == RuleRef {
+				if l := leaf[e.Name]; l != nil {
+					changed = true
+					return l.Expr.Clone()
+				}
+				return e
+			}
+			for i, s := range e.Subs {
+				e.Subs[i] = repl(s)
+			}
+			return e
+		}
+		for _, r := range c.Rules {
+			r.Expr = repl(r.Expr)
+		}
+		if !changed {
+			break
+		}
+	}
+	c.Finalize()
+	clash := false
+	for _, r := range c.Rules {
+		Walk(r.Expr, func(e *Expr) {
+			if e.Code == nil {
+				return
+			}
+			seen := map[string]bool{}
+			for _, p := range e.Params {
+				if seen[p] {
+					clash = true
+				}
+				seen[p] = true
+			}
+		})
+	}
+	return clash
+}
